@@ -92,6 +92,9 @@ def payloads(depth):
             ("task-in-lambda d%d" % dist, "let q = (z: int) -> { task { println(z + %s) } }\nq(1)" % v, dist),
             ("lambda-in-task d%d" % dist, "task {\n  let q = (z: int) -> z + %s\n  println(q(1))\n}" % v, dist),
             ("break-in-lambda d%d" % dist, "let q = (z: int) -> { if z > %s { break } }\nq(1)" % v, dist),
+            ("task-write-only d%d" % dist, "task { %s = 5 }" % v, dist),
+            ("task-write-only-compound d%d" % dist, "task { %s += 5 }" % v, dist),
+            ("task-write-only-nested d%d" % dist, "task {\n  if true { %s = 6 }\n}" % v, dist),
             ("return-in-task d%d" % dist, "task { if %s > 100 { return }\n println(2) }" % v, dist),
         ]
         for op in ("=", "+=", "-=", "*=", "/=", "%="):
